@@ -101,6 +101,7 @@ type VC struct {
 	predDepth   int
 	inTypeInv   bool
 	compLeafT   map[string]types.Type
+	loopIndex   map[ast.Node]int
 	frameTargets map[string][]string
 	frameWhole  bool
 	epochAlloc  map[int]string
@@ -366,6 +367,7 @@ func (vc *VC) loadShape(st *State, comp string, T types.Type, lvl int, acc func(
 		v.Len = acc(vc.heapGet(st, comp+"#len", sortAt("Int", lvl)))
 		v.Cap = acc(vc.heapGet(st, comp+"#cap", sortAt("Int", lvl)))
 		st.assume(app("<=", v.Len, v.Cap))
+		st.assume(smtImp(smtEq(v.Arr, "0"), smtEq(v.Len, "0")))
 		return v
 	}
 	vc.compLeafT[comp] = T
